@@ -4,6 +4,7 @@ of observation points, both analysis modes, repetition 1 and 3.  3.9 compatible.
 import gc
 import itertools
 import sys
+import types
 import warnings
 import weakref
 
@@ -104,7 +105,11 @@ class CountingObserver(object):
             objs = list(lowlevel.inspect_frame(frame).stack)
         except Exception:
             return
-        objs = [o for o in objs if o is not None]
+        # only objects that can plausibly be reachable from the value stack alone: interpreter-wide shared objects
+        # (small ints, interned strings, types, functions, ...) change their counts for reasons unrelated to extraction
+        shared = (int, str, bytes, float, bool, type(None), type, tuple, frozenset, types.FunctionType, types.BuiltinFunctionType,
+                  types.ModuleType, types.CodeType)
+        objs = [o for o in objs if o is not None and not isinstance(o, shared)]
 
         def measure(collect):
             if collect:
